@@ -160,7 +160,14 @@ class SymArray:
     def astype(self, dt, copy=True):
         dt = _np.dtype(dt)
         if dt.kind == "f":
-            return SymArray(self.a.copy(), dt)
+            out = self.a.copy()
+            for idx in _np.ndindex(out.shape):
+                c = out[idx]
+                if isinstance(c, (bool, _np.bool_)):
+                    out[idx] = 1.0 if c else 0.0            # True/False -> 1.0/0.0 as numpy does
+                elif isinstance(c, SB):
+                    out[idx] = c._as_int()
+            return SymArray(out, dt)
         if dt.kind in "iu":
             out = self.a.copy()
             for idx in _np.ndindex(out.shape):
@@ -1608,7 +1615,53 @@ def log10(x):
     return _map(x, lambda c: core.uf("LOG", c) / core.uf("LOG", 10) if is_sym(c) else __import__("math").log10(c), _F8)
 
 
+def _concrete(x):
+    """plain numpy / Python value of an argument that holds no symbolic cell; raises _HasSym otherwise"""
+    if isinstance(x, SymArray):
+        if builtins.any(is_sym(c) or isinstance(c, (NonFinite, MaybeFinite, SymChoice)) for c in x.a.flat):
+            raise _HasSym()
+        try:
+            return _np.array(x.a.tolist(), dtype=x.dtype if getattr(x, "dtype", None) is not None else None)
+        except (TypeError, ValueError):
+            return _np.array(x.a.tolist())
+    if is_sym(x) or isinstance(x, (NonFinite, MaybeFinite, SymChoice)) or hasattr(x, "_symq_value"):
+        raise _HasSym()
+    if isinstance(x, (list, tuple)):
+        return type(x)(_concrete(v) for v in x)
+    if isinstance(x, dict):
+        return {k: _concrete(v) for k, v in x.items()}
+    return x
+
+
+class _HasSym(Exception):
+    pass
+
+
+def _wrap_back(r):
+    if isinstance(r, _np.ndarray):
+        return SymArray(_obj(r.tolist()) if r.dtype != object else r, r.dtype if r.dtype != object else None)
+    if isinstance(r, (tuple, list)):
+        return type(r)(_wrap_back(v) for v in r)
+    if isinstance(r, _np.generic):
+        return r.item()
+    return r
+
+
 def __getattr__(name):
     if name.startswith("__"):
         raise AttributeError(name)
-    raise UnsupportedByShim("numpy.%s is not modelled by symx.symnp" % name)
+    real = getattr(_np, name, None)
+    if real is None:
+        raise AttributeError("module 'numpy' has no attribute %r" % name)
+    if not callable(real) or isinstance(real, type):
+        return real                       # constants, dtypes, exception classes
+
+    def on_concrete(*a, **k):
+        # a numpy function the shim does not model: exact on purely concrete arguments (numpy itself), unsupported otherwise
+        try:
+            ca, ck = [_concrete(v) for v in a], {kk: _concrete(v) for kk, v in k.items()}
+        except _HasSym:
+            raise UnsupportedByShim("numpy.%s is not modelled by symx.symnp for symbolic arguments" % name)
+        return _wrap_back(real(*ca, **ck))
+    on_concrete.__name__ = name
+    return on_concrete
